@@ -262,7 +262,7 @@ func rpGen(r *rng.R, id int) *rpProject {
 					dir = c.Pkg + "/gen"
 					file = dir + "/" + strings.TrimPrefix(l, "output:file ./gen/")
 				}
-				if strings.HasPrefix(l, "output:file ../") || strings.HasPrefix(l, "output:file @cwd") || strings.HasPrefix(l, "output:package") {
+				if strings.HasPrefix(l, "output:file ../") || strings.HasPrefix(l, "output:file @cwd") || strings.HasPrefix(l, "output:package") || strings.HasPrefix(l, "output:file ./zz_conv") {
 					dir = ""
 				}
 			}
